@@ -559,7 +559,12 @@ class MediaSegmentInfo(SegmentInfoBase):
         with current_media_file.open_file(start=frag.pos, buffer_size=16384) as reader:
             src = BufferedReader(
                 reader, offset=frag.pos, size=frag.size, buffersize=16384)
-            atom = mp4.Mp4Atom.load(src, options=options, use_wrapper=True)
+            try:
+                atom = mp4.Mp4Atom.load(src, options=options, use_wrapper=True)
+            except ValueError as err:
+                # the file has been indexed, but this segment is corrupt
+                logging.warning('Failed to parse segment %s: %s', segnum, err)
+                return flask.make_response('Failed to parse segment', 400)
         back_url = flask.url_for(
             'list-media-segments', spk=current_stream.pk, mfid=current_media_file.pk)
         full_title: str = f'Segment {segnum} in fille "{current_media_file.blob.filename}"'
